@@ -46,6 +46,7 @@ def run_case(tape, tier):
         return lp
     r1 = sched.execute(prog, res, mode="do")
     r2 = sched.execute(prog, None, mode="ado", vloop_factory=factory, noise=noise)
+    sched.check_runaway(r1, res)
     res.scenario = lambda: dict(program=sched.prog_readable(prog), noise=noise, permute=permute, result=r1.result)
     t1 = [e for e in r1.trace if e[0] != "do_begin"]
     t2 = [e for e in r2.trace if e[0] != "do_begin"]
